@@ -1,32 +1,34 @@
 (* C10 -- property theorems only.  Each is closed by `exact <lemma>`; statements are pinned in tools/pinned/C10.statements.
    Model: coq/Model/Stop.v (LTS of accept loop, connection tasks, completion tokens, WS reader / per-message tasks /
-   writer, hyper's graceful shutdown); `run init tr` ranges over ALL finite traces, `effective s a` says that action a is
+   writer, hyper's graceful shutdown); `run (init_cap cap) tr` ranges over ALL finite traces, `effective s a` says that action a is
    enabled in s (a disabled action leaves the state unchanged). *)
 From Coq Require Import List NArith Bool Arith.
 From JV Require Import Model.Stop Proofs.StopFacts.
 Import ListNotations.
 
 (* Once `stopped` has resolved, on every connection the client did not leave, each call is on the wire exactly as
-   many times as its handler started (handlers started before the stop signal included): started => answered, once. *)
-Theorem C10_started_calls_answered : forall (tr : list action) (c : nat) (k : N) (x : conn), s_resolved (run init tr) = true -> nth_error (s_conns (run init tr)) c = Some x -> c_closed x = false -> count_occ N.eq_dec (c_wire x) k = starts init tr c k.
+   many times as its handler started (handlers started before the stop signal included): started => answered, once --
+   for every queue capacity, i.e. also for answers that had to wait for room in the bounded outgoing queue. *)
+Theorem C10_started_calls_answered : forall (cap : nat) (tr : list action) (c : nat) (k : N) (x : conn), s_resolved (run (init_cap cap) tr) = true -> nth_error (s_conns (run (init_cap cap) tr)) c = Some x -> c_closed x = false -> count_occ N.eq_dec (c_wire x) k = starts (init_cap cap) tr c k.
 Proof. exact started_calls_answered. Qed.
 Print Assumptions C10_started_calls_answered.
 
 (* The property as worded: a handler that started while the server had not been told to stop, on a connection the
    client did not leave, has its reply on the wire once `stopped` has resolved. *)
-Theorem C10_started_before_stop_answered : forall (pre post : list action) (c : nat) (k : N) (x : conn), sig (run init pre) = false -> effective (run init pre) (Conn c (CStart k)) = true -> let tr := pre ++ Conn c (CStart k) :: post in s_resolved (run init tr) = true -> nth_error (s_conns (run init tr)) c = Some x -> c_closed x = false -> In k (c_wire x).
+Theorem C10_started_before_stop_answered : forall (cap : nat) (pre post : list action) (c : nat) (k : N) (x : conn), sig (run (init_cap cap) pre) = false -> effective (run (init_cap cap) pre) (Conn c (CStart k)) = true -> let tr := pre ++ Conn c (CStart k) :: post in s_resolved (run (init_cap cap) tr) = true -> nth_error (s_conns (run (init_cap cap) tr)) c = Some x -> c_closed x = false -> In k (c_wire x).
 Proof. exact started_before_stop_answered. Qed.
 Print Assumptions C10_started_before_stop_answered.
 
 (* `stopped` can only resolve when start_inner has returned and, for every connection, its task has ended, its
-   completion token is dropped, its send task is finished with an empty queue, and (client still there) no call is pending. *)
-Theorem C10_stopped_after_all : forall tr : list action, effective (run init tr) StoppedResolves = true -> s_accept (run init tr) = ADone /\ Forall (fun x => c_phase x = PDone /\ c_tok x = false /\ c_writer x = WFin /\ c_queue x = [] /\ (c_closed x = false -> c_tasks x = [])) (s_conns (run init tr)).
+   completion token is dropped, its send task is finished with an empty queue, and (client still there) no call is
+   pending -- in particular none whose answer is parked waiting for room in the bounded queue (state TRet). *)
+Theorem C10_stopped_after_all : forall (cap : nat) (tr : list action), effective (run (init_cap cap) tr) StoppedResolves = true -> s_accept (run (init_cap cap) tr) = ADone /\ Forall (fun x => c_phase x = PDone /\ c_tok x = false /\ c_writer x = WFin /\ c_queue x = [] /\ (c_closed x = false -> c_tasks x = [])) (s_conns (run (init_cap cap) tr)).
 Proof. exact stopped_after_all. Qed.
 Print Assumptions C10_stopped_after_all.
 
 (* After `stopped` resolved no connection is accepted, and a handler can only still start for a message that was
    sent before that point (id below the id counter at that point) on a WebSocket connection whose client has gone. *)
-Theorem C10_nothing_after_stopped : forall tr1 tr2 : list action, s_resolved (run init tr1) = true -> (forall kd, effective (run init (tr1 ++ tr2)) (Connect kd) = false) /\ (forall c k, effective (run init (tr1 ++ tr2)) (Conn c (CStart k)) = true -> (k < s_next (run init tr1))%N /\ exists x, nth_error (s_conns (run init (tr1 ++ tr2))) c = Some x /\ c_kind x = KWs /\ c_closed x = true).
+Theorem C10_nothing_after_stopped : forall (cap : nat) (tr1 tr2 : list action), s_resolved (run (init_cap cap) tr1) = true -> (forall kd, effective (run (init_cap cap) (tr1 ++ tr2)) (Connect kd) = false) /\ (forall c k, effective (run (init_cap cap) (tr1 ++ tr2)) (Conn c (CStart k)) = true -> (k < s_next (run (init_cap cap) tr1))%N /\ exists x, nth_error (s_conns (run (init_cap cap) (tr1 ++ tr2))) c = Some x /\ c_kind x = KWs /\ c_closed x = true).
 Proof. exact nothing_after_stopped. Qed.
 Print Assumptions C10_nothing_after_stopped.
 
@@ -48,7 +50,7 @@ Print Assumptions C10_signal_stays.
 
 (* never stuck: in every reachable state with the stop signal up and some token still held, a step of the server's
    own tasks (or a handler returning) is enabled ... *)
-Theorem C10_no_hang : forall tr : list action, let s := run init tr in sig s = true -> all_dropped s = false -> exists a, internal a = true /\ effective s a = true.
+Theorem C10_no_hang : forall (cap : nat) (tr : list action), 1 <= cap -> let s := run (init_cap cap) tr in sig s = true -> all_dropped s = false -> exists a, internal a = true /\ effective s a = true.
 Proof. exact no_hang. Qed.
 Print Assumptions C10_no_hang.
 
@@ -85,3 +87,16 @@ Proof. vm_compute. split; reflexivity. Qed.
 (* the exemption in C10_nothing_after_stopped is needed: the client left, `stopped` resolved, the spawned task still starts *)
 Example C10_start_after_stopped_when_client_gone : let tr := [Connect KWs; ClientSend 0; Conn 0 CRead; Conn 0 CDisconnect; Conn 0 CReaderClosed; Conn 0 CWriterFail; Conn 0 CBgDone; Conn 0 CHyperDone; Stop; AcceptSeeStop; AcceptDone; StoppedResolves] in s_resolved (run init tr) = true /\ effective (run init tr) (Conn 0 (CStart 0%N)) = true.
 Proof. vm_compute. split; reflexivity. Qed.
+
+(* back-pressure: capacity 1, three calls executing at the stop and returning together.  The second answer cannot be
+   queued (CEnqueue disabled: parked, token held), so graceful shutdown cannot end and `stopped` cannot resolve;
+   once the writer makes room everything is delivered, and only then does `stopped` resolve. *)
+Definition bp_trace : list action :=
+  [Connect KWs; ClientSend 0; ClientSend 0; ClientSend 0; Conn 0 CRead; Conn 0 CRead; Conn 0 CRead;
+   Conn 0 (CStart 0%N); Conn 0 (CStart 1%N); Conn 0 (CStart 2%N); Stop; Conn 0 CSeeStop; AcceptSeeStop; Conn 0 CHyperDone; AcceptDone;
+   Conn 0 (CFinish 0%N); Conn 0 (CFinish 1%N); Conn 0 (CFinish 2%N); Conn 0 (CEnqueue 0%N)].
+Definition bp_tail : list action :=
+  [Conn 0 CWrite; Conn 0 (CEnqueue 2%N); Conn 0 CWrite; Conn 0 (CEnqueue 1%N); Conn 0 CGracefulEnd; Conn 0 CWrite;
+   Conn 0 CWriterStop; Conn 0 CBgDone; StoppedResolves].
+Example C10_backpressure_witness : effective (run (init_cap 1) bp_trace) (Conn 0 (CEnqueue 1%N)) = false /\ effective (run (init_cap 1) bp_trace) (Conn 0 CGracefulEnd) = false /\ effective (run (init_cap 1) bp_trace) StoppedResolves = false /\ effective (run (init_cap 2) bp_trace) (Conn 0 (CEnqueue 1%N)) = true /\ s_resolved (run (init_cap 1) (bp_trace ++ bp_tail)) = true /\ option_map c_wire (nth_error (s_conns (run (init_cap 1) (bp_trace ++ bp_tail))) 0) = Some [0%N; 2%N; 1%N].
+Proof. vm_compute. repeat split; reflexivity. Qed.
